@@ -15,7 +15,7 @@
     * `bindAlias dst h` (`dst = h + None`, `dst = h + 0`, `dst = dictable.concat([h])`, plain `dst = h`)
       makes `dst` point to the cell of `h`.
   Cells no handle points to any more are garbage (not collected; unobservable).
-  Theorems: `Pyg.Props.C01.rframe_step`, `ralias_shared`, `rrect_step`, `rwf_step`.
+  Theorems: `Pyg.Props.C01.rframe_step`, `ralias_shared`, `rrect_step`, `rwf_step`, `rstep_noalias`, `rrun_noalias`.
   (`RHeap` is the name of the list-of-records heap of TableSpec.lean; this structure is `RefHeap`.)
 -/
 import PygModel.Table
